@@ -61,7 +61,8 @@ def plan_fault_histories(case: dict, ref: dict) -> list[list[dict]]:
             e = engine.pick_fault_event(r, strata)
             if e is not None:
                 f = {"sel": engine.selector_for(e), "kind": r.choice(_c16.ERROR_KINDS[e["op"]])}
-                if r.random() < 0.3 and not f["kind"].endswith("_short"):
+                p_sticky = 0.6 if f["kind"].split("_")[0] in ("enospc", "emfile", "erofs") else 0.25  # conditions that typically persist
+                if r.random() < p_sticky and not f["kind"].endswith("_short"):
                     f["sticky"] = True  # the condition persists (full disk, read-only directory)
                 faults.append(f)
         if faults:
